@@ -166,6 +166,20 @@ def arith_rows(rng, n, rows):
         rows.append({'op': 'sub', 'x': dsq, 'y': dsq, 'got': dyadic_of_fpnum(sq.sub(sq))})
         rows.append({'op': 'cmp', 'x': dx, 'y': dx, 'got': x.compare(FPNum(b1, fmt))})
         rows.append({'op': 'cmp', 'x': dy, 'y': dy, 'got': y.compare(FPNum(b2, fmt))})
+        # chains: a product (a sum) used as operand of the next operation, five factors deep (every step is judged against the
+        # exact product of the PREVIOUS result, so precision silently dropped at any depth shows)
+        if _ % 4 == 0:
+            acc, dacc = x, dx
+            for step in range(5):
+                f = FPNum(rng.choice([b1, b2, (1 << (ew + mw - 1)) - 1 - rng.randrange(1 << (mw // 2)), b1 ^ 1]) & ((1 << (ew + mw + 1)) - 1), fmt)
+                if f.nan or f.infinity:
+                    break
+                df = dyadic_of_fpnum(f)
+                nxt = acc.mul(f) if step % 2 == 0 or fmt == 'dp' else acc.add(f)
+                rows.append({'op': 'mul' if step % 2 == 0 or fmt == 'dp' else 'add', 'x': dacc, 'y': df, 'got': dyadic_of_fpnum(nxt)})
+                acc, dacc = nxt, dyadic_of_fpnum(nxt)
+                if 'sp' in dacc:
+                    break
         # values that went through a precision reduction keep their ordering
         z = FPNum(b1, fmt)
         z.reducePrecisionWithRounding(rng.choice([3, mw // 2, mw - 1]))
